@@ -75,3 +75,38 @@ def ob_sql_ack(p0: bool, t0: int, k0: int, p1: bool, t1: int, k1: int, g: List[i
     if [b[0] for b in st.broadcasts] != [new["id"]] or [b[0] for b in st.announced] != [new["id"]]:
         return "accepted event broadcast %r / announced %r" % (st.broadcasts, st.announced)
     return "ok"
+
+
+@obligation(funcs=["storage.db.DBStorage.add_event", "storage.db.DBStorage.post_save", "storage.db.DBStorage.process_tags"],
+            timeout=(200, 900),
+            bounds="SQL: sequences of <=4 submissions by symbolic selector from {E, D (kind 5 by the same author referencing E), E2 "
+                   "(another regular event)}: a submission answered as a duplicate changes nothing; an event answered OK true is "
+                   "retrievable until a later ACCEPTED deletion removes it")
+def ob_sql_resubmit_sequence(seq: List[int]) -> str:
+    """
+    pre: 1 <= len(seq) <= 4 and all(0 <= x < 3 for x in seq)
+    post: _.startswith("ok")
+    """
+    logging.disable(logging.CRITICAL)
+    st = S.make_store()
+    E = S.evj(0, False, 1, 10, [["t", "x"]])
+    D = S.evj(1, False, 5, 20, [["e", S.IDS[0]]])
+    E2 = S.evj(2, False, 1, 30, [])
+    nontrivial = False
+    for x in seq:
+        ev = dict((E, D, E2)[x])
+        before = sorted(r["id"] for r in S.rows(st))
+        try:
+            _, changed = S.drive(st.add_event(ev))
+        except Exception as e:
+            return "submission %d refused with %r" % (x, e)
+        after = sorted(r["id"] for r in S.rows(st))
+        if not changed:
+            nontrivial = True
+            if after != before:
+                return "a submission answered 'duplicate' changed the store from %r to %r (sequence %r)" % (
+                    [i[-2:] for i in before], [i[-2:] for i in after], seq)
+        else:
+            if ev["id"] not in after:
+                return "event answered OK true is not stored (sequence %r)" % (seq,)
+    return "ok" if nontrivial else "ok-nodup"
